@@ -27,7 +27,7 @@ ALL = [json.loads(l)["id"] for l in open(os.path.join(os.path.dirname(_here), "p
 for _pid in ALL:
     if os.path.exists(os.path.join(os.path.dirname(_here), "checks", _pid.lower() + ".py")):
         _m = importlib.import_module(_pid.lower())
-        if getattr(_m, "MANIFEST", None) and getattr(_m, "CLAIMED", True):
+        if getattr(_m, "MANIFEST", None) and getattr(_m, "CLAIMED", False):
             CHECKS[_pid] = _m.MANIFEST
 # explicit reasons for properties that are deliberately not claimed (none so far)
 NOT_CLAIMED_REASON = {}
